@@ -92,6 +92,9 @@ THEOREMS = [
     ("Kopf.Props.C16", "Kopf.C16.isolation_dstore"),
     ("Kopf.Props.C16", "Kopf.C16.isolation_other_handler"),
     ("Kopf.Props.C16", "Kopf.C16.isolation_other_handler_purge"),
+    ("Kopf.Props.C16", "Kopf.C16.pending_store_survives_purge"),
+    ("Kopf.Props.C16", "Kopf.C16.status_record_survives_other_purge"),
+    ("Kopf.Props.C16", "Kopf.C16.status_record_survives_other_store"),
     ("Kopf.Props.C16", "Kopf.C16.touch_leaves_records"),
     ("Kopf.Props.C16", "Kopf.C16.dstore_leaves_records"),
     ("Kopf.Props.C16", "Kopf.C16.foreign_annotation_untouched"),
@@ -203,13 +206,13 @@ def build_storage(spec: dict) -> Any:
     _, progress, _, _, _ = _kopf()
     cls = spec["cls"]
     kw = {k: (tuple(v) if isinstance(v, list) and k in ("field", "touch_field") else v)
-          for k, v in spec.items() if k not in ("cls", "children")}
+          for k, v in spec.items() if k not in ("cls", "children", "set")}
     with warnings.catch_warnings():
         warnings.simplefilter("ignore")
         if cls == "annotations":
             return progress.AnnotationsProgressStorage(**kw)
         if cls == "status":
-            return progress.StatusProgressStorage(**kw)
+            return _assign(progress.StatusProgressStorage(**kw), spec.get("set"))
         if cls == "smart":
             return progress.SmartProgressStorage(**kw)
         if cls == "multi":
@@ -217,17 +220,56 @@ def build_storage(spec: dict) -> Any:
     raise ValueError(cls)
 
 
+def _assign(storage: Any, assignments: dict | None) -> Any:
+    """`storage.field = ...` / `storage.touch_field = ...` after construction (the property setters of the status storages)"""
+    for attr, value in (assignments or {}).items():
+        setattr(storage, attr, tuple(value) if isinstance(value, list) else value)
+    return storage
+
+
+# ---- the configuration an operator ASKS for, read off the constructor arguments (documented signature and defaults,
+# ---- transcribed once): where the records have to live, whatever attributes the storage object shows afterwards
+def _xfield(value: Any, name: str) -> list[str]:
+    return value.format(name=name).split(".") if isinstance(value, str) else list(value)
+
+
+def expected_leaves(spec: dict) -> list[dict]:
+    cls = spec["cls"]
+    if cls == "multi":
+        return [l for c in spec["children"] for l in expected_leaves(c)]
+    ann = {"t": "ann", "prefix": spec.get("prefix", "kopf.zalando.org"), "v1": bool(spec.get("v1", True)),
+           "verbose": bool(spec.get("verbose", False)), "touch_key": spec.get("touch_key", "touch-dummy")}
+    name = spec.get("name", "kopf")
+    setters = spec.get("set") or {}
+    status = {"t": "status", "field": _xfield(setters.get("field", spec.get("field", "status.{name}.progress")), name),
+              "touch_field": _xfield(setters.get("touch_field", spec.get("touch_field", "status.{name}.dummy")), name),
+              "nowrite": cls == "smart"}
+    return {"annotations": [ann], "status": [status], "smart": [ann, status]}[cls]
+
+
+def expected_dleaves(spec: dict) -> list[dict]:
+    cls = spec["cls"]
+    if cls == "multi":
+        return [l for c in spec["children"] for l in expected_dleaves(c)]
+    if cls == "annotations":
+        return [{"t": "ann", "prefix": spec.get("prefix", "kopf.zalando.org"), "key": spec.get("key", "last-handled-configuration"),
+                 "v1": bool(spec.get("v1", True))}]
+    setters = spec.get("set") or {}
+    return [{"t": "status", "field": _xfield(setters.get("field", spec.get("field", "status.{name}.last-handled-configuration")),
+                                               spec.get("name", "kopf"))}]
+
+
 def build_dstorage(spec: dict) -> Any:
     _, _, diffbase, _, _ = _kopf()
     cls = spec["cls"]
     kw = {k: (tuple(v) if isinstance(v, list) and k == "field" else v)
-          for k, v in spec.items() if k not in ("cls", "children")}
+          for k, v in spec.items() if k not in ("cls", "children", "set")}
     with warnings.catch_warnings():
         warnings.simplefilter("ignore")
         if cls == "annotations":
             return diffbase.AnnotationsDiffBaseStorage(**kw)
         if cls == "status":
-            return diffbase.StatusDiffBaseStorage(**kw)
+            return _assign(diffbase.StatusDiffBaseStorage(**kw), spec.get("set"))
         if cls == "multi":
             return diffbase.MultiDiffBaseStorage([build_dstorage(c) for c in spec["children"]])
     raise ValueError(cls)
@@ -336,16 +378,22 @@ def name_problems(full: str) -> list[str]:
     return out
 
 
-def real_suffix(s: str) -> str:
-    """The REAL make_suffix of the tree under test (it does not depend on the instance's state)."""
+def _bare_convention() -> Any:
+    """an instance of the naming mixin without a constructor call: its helpers are reached as bound attributes, so that
+    it does not matter whether the code under test declares them as methods, static methods or class methods"""
     conventions, _, _, _, _ = _kopf()
     obj = conventions.StorageKeyFormingConvention.__new__(conventions.StorageKeyFormingConvention)
-    return obj.make_suffix(s)
+    obj.prefix, obj.v1 = "kopf.zalando.org", True
+    return obj
+
+
+def real_suffix(s: str) -> str:
+    """The REAL make_suffix of the tree under test (it does not depend on the instance's state)."""
+    return _bare_convention().make_suffix(s)
 
 
 def real_safe(s: str) -> str:
-    conventions, _, _, _, _ = _kopf()
-    return conventions.StorageKeyFormingConvention.make_safe_key(s)
+    return _bare_convention().make_safe_key(s)
 
 
 def sfx_table(ids: Iterable[str]) -> list[list[str]]:
@@ -422,6 +470,12 @@ def check_sfx(x: str, sfx: str) -> None:
 
 def jsonable(x: Any) -> Any:
     return json.loads(json.dumps(x))
+
+
+def differs(a: Any, b: Any) -> bool:
+    """type-strict JSON inequality: Python's `==` equates True with 1, False with 0 and 1 with 1.0 — a record whose
+    `success: true` reads back as `1` is not "read back identically" """
+    return json.dumps(a, sort_keys=True) != json.dumps(b, sort_keys=True)
 
 
 def sort_keys_deep(x: Any) -> Any:
@@ -589,7 +643,19 @@ UNI = ["", "ok", "Ошибка: нет данных", "エラー", "naïve café
        "ctrl \x01\x1f\x7f", "{\"json\": \"inside\"}", "null", "\u00a0nbsp \u200b zero-width", "x" * 200]
 
 
-def gen_record(rng) -> tuple[list[list[Any]], str]:
+BIG_SIZES = [1023, 1024, 1025, 1100, 2048, 4097, 5000, 20000]
+HUGE_SIZES = [65535, 65537, 70000, 100000, 131073]
+
+
+def big_text(rng, huge: bool = False) -> str:
+    """a long text (an exception message with a dumped response, a long field): exact lengths around the powers of two a
+    "protective" cut would be placed at; mostly ASCII, sometimes with multi-byte characters (lengths count code points)"""
+    n = rng.choice(HUGE_SIZES if huge else BIG_SIZES)
+    unit = rng.choice(["x", "error: ", "Ошибка ", "0123456789", "{\"k\":\"v\"},", "😀"])
+    return (unit * (n // len(unit) + 1))[:n]
+
+
+def gen_record(rng, big: float = 0.05, huge: float = 0.002) -> tuple[list[list[Any]], str]:
     kind = rng.choices(["full", "partial", "empty", "allnull", "extra"], weights=[60, 20, 5, 5, 10])[0]
 
     def opt(v):
@@ -602,6 +668,13 @@ def gen_record(rng) -> tuple[list[list[Any]], str]:
             ["retries", opt(rng.randint(0, 100))], ["success", opt(rng.random() < 0.5)], ["failure", opt(rng.random() < 0.5)],
             ["message", opt(rng.choice(UNI))],
             ["subrefs", opt([ident(rng) + "/" + ident(rng) for _ in range(rng.randint(1, 3))])]]
+    r = rng.random()
+    if r < big + huge:
+        # record content of a realistic worst case: long messages, many sub-handlers
+        if rng.random() < 0.8:
+            full[7] = ["message", big_text(rng, huge=r < huge)]
+        else:
+            full[8] = ["subrefs", [ident(rng, 4, 10) + "/" + ident(rng, 4, 10) + str(i) for i in range(rng.choice([64, 300, 1000]))]]
     if kind == "full":
         rec = full
     elif kind == "partial":
@@ -628,14 +701,24 @@ def gen_storage_spec(rng) -> tuple[dict, str]:
         return kw
 
     def status():
+        # name, field and touch_field independently (templates with and without a name), and — a configuration of its own —
+        # fields assigned AFTER construction (`settings.persistence.progress_storage.field = ...`: the property setters)
         kw: dict[str, Any] = {"cls": "status"}
-        r = rng.random()
-        if r < 0.3:
+        if rng.random() < 0.4:
             kw["name"] = rng.choice(["myop", "kopf2", "x"])
-        elif r < 0.5:
-            kw["field"] = rng.choice(["status.{name}.progress2", "status.progress", ["status", "a.b", "p"], "spec.hidden.progress"])
+        if rng.random() < 0.3:
+            kw["field"] = rng.choice(["status.{name}.progress2", "status.progress", ["status", "a.b", "p"], "spec.hidden.progress",
+                                      "status.{name}-state.handlers"])
         if rng.random() < 0.2:
             kw["touch_field"] = rng.choice(["status.{name}.touched", ["status", "dummy"]])
+        if rng.random() < 0.2:
+            st: dict[str, Any] = {}
+            if rng.random() < 0.8:
+                st["field"] = rng.choice(["status.{name}.progress", "status.{name}.handlers", ["status", "set", "p"], "status.assigned"])
+            if rng.random() < 0.4:
+                st["touch_field"] = rng.choice(["status.{name}.dummy", "status.{name}.poke", ["status", "set", "t"]])
+            if st:
+                kw["set"] = st
         return kw
 
     def smart():
@@ -645,8 +728,14 @@ def gen_storage_spec(rng) -> tuple[dict, str]:
             kw["v1"] = rng.random() < 0.5
         if rng.random() < 0.3:
             kw["verbose"] = True
-        if rng.random() < 0.2:
+        if rng.random() < 0.25:
             kw["name"] = "myop"
+        if rng.random() < 0.15:
+            kw["field"] = rng.choice(["status.{name}.progress2", "status.progress", ["status", "a.b", "p"]])
+        if rng.random() < 0.1:
+            kw["touch_field"] = rng.choice(["status.{name}.touched", ["status", "dummy"]])
+        if rng.random() < 0.1:
+            kw["touch_key"] = rng.choice(["touch", "my/touch", "touch-dummy."])
         return kw
 
     shape = rng.choices(["ann", "status", "smart", "multi2", "multi-as", "multi-sa", "nested"],
@@ -698,7 +787,9 @@ def gen_dstorage_spec(rng, prefix: str) -> dict:
         if rng.random() < 0.4:
             kw["name"] = "myop"
         if rng.random() < 0.3:
-            kw["field"] = rng.choice(["status.lhc", ["status", "k.o", "lhc"]])
+            kw["field"] = rng.choice(["status.lhc", ["status", "k.o", "lhc"], "status.{name}.lhc"])
+        if rng.random() < 0.2:
+            kw["set"] = {"field": rng.choice(["status.{name}.last-handled-configuration", "status.{name}.essence", ["status", "set", "lhc"]])}
         return kw
     r = rng.random()
     if r < 0.6:
@@ -772,10 +863,62 @@ def gen_body(rng, prefixes: list[str]) -> tuple[dict, dict]:
     return body, flags
 
 
-def gen_scenario(rng) -> dict:
+TWIN_RECORD = {"started": "1999-01-01T00:00:00", "success": True, "retries": 7, "message": "record of ANOTHER operator's handler with the same id"}
+TWIN_ESSENCE = {"spec": {"twin": "last-handled state of ANOTHER object/operator"}}
+
+
+def is_prefix_path(a: list, b: list) -> bool:
+    return len(a) <= len(b) and list(b[:len(a)]) == list(a)
+
+
+def add_twins(rng, body: dict, flags: dict, k: str, xdesc: list[dict], xddesc: list[dict]) -> None:
+    """Records of the SAME handler id (and the same last-handled key) that belong to somebody else, put where a storage that is
+    sloppy about its own place would find them (names from the pinned format, never from the code under test):
+    (a) another operator's annotations `<other prefix>/<the very name part>`; (b) on a ReplicaSet owned by a Deployment, the
+    Deployment's own records under the own prefix with the UNMARKED names (Kubernetes copies the owner's annotations down:
+    the reason the '-ofDRS' names exist); (c) another operator's status stanza `status.<other name>.progress.<id>`."""
+    md = body.setdefault("metadata", {})
+    anns = md.setdefault("annotations", {})
+    drs = bool(flags.get("drs"))
+    mk = k + "-ofDRS" if drs else k
+    n = 0
+    enc = json.dumps(TWIN_RECORD, separators=(",", ":"))
+    own_prefixes = [d["prefix"] for d in xdesc + xddesc if d["t"] == "ann"]
+    for d in [d for d in xdesc if d["t"] == "ann"]:
+        p = d["prefix"]
+        for fp in {rng.choice(["other-op.example.org", "twin.example.com"]), rng.choice([p + "x", "x" + p, "twin." + p])}:
+            if fp in own_prefixes or len(fp) > 253 or prefix_problems(fp):
+                continue
+            for part in pinned_parts(mk, p, True) + pinned_parts(mk, fp, True):
+                anns.setdefault(fp + "/" + part, enc)
+                n += 1
+        if drs and not k.endswith("-ofDRS"):
+            for part in pinned_parts(k, p, True):          # what the owning Deployment's handler of the same id stored
+                anns.setdefault(p + "/" + part, enc)
+                n += 1
+    if drs:
+        for d in [d for d in xddesc if d["t"] == "ann"]:
+            if not d["key"].endswith("-ofDRS"):
+                for part in pinned_parts(d["key"], d["prefix"], True):      # the Deployment's last-handled state, copied down
+                    anns.setdefault(d["prefix"] + "/" + part, json.dumps(TWIN_ESSENCE, separators=(",", ":")) + "\n")
+                    n += 1
+    own_paths = [d["field"] for d in xdesc + xddesc if d["t"] == "status"] + [d["touch_field"] for d in xdesc if d["t"] == "status"]
+    for d in [d for d in xdesc if d["t"] == "status"]:
+        for twin in (["status", "kopf", "progress"], ["status", "other-op", "progress"], d["field"][:-1] + ["x" + d["field"][-1]]):
+            if any(is_prefix_path(o, twin) or is_prefix_path(twin, o) for o in own_paths):
+                continue
+            parent = resolve(body, twin[:-1])
+            if parent is not MISSING and not isinstance(parent, dict):
+                continue
+            set_path(body, twin + [k], dict(TWIN_RECORD))
+            n += 1
+            break
+    flags["twins"] = n
+
+
+def gen_scenario(rng, big: bool = False) -> dict:
     spec, shape = gen_storage_spec(rng)
-    storage = build_storage(spec)
-    desc = describe(storage)
+    desc = expected_leaves(spec)
     ann_leaves = [d for d in desc if d["t"] == "ann"]
     prefixes = [d["prefix"] for d in ann_leaves]
     plen = len(prefixes[0]) if prefixes else 16
@@ -810,7 +953,7 @@ def gen_scenario(rng) -> dict:
         if o != k and o not in others:
             others.append(o)
             other_kinds.append(okind)
-    rec, rkind = gen_record(rng)
+    rec, rkind = gen_record(rng, *((0.7, 0.3) if big else (0.05, 0.002)))
     old = None
     if rng.random() < 0.25:
         # an older record of the same handler: same key set as the new one (kopf writes all keys)
@@ -825,6 +968,16 @@ def gen_scenario(rng) -> dict:
     dspec = gen_dstorage_spec(rng, prefixes[0] if prefixes else "kopf.zalando.org")
     essence = sort_keys_deep({"spec": {"field": gen_value(rng), "n": rng.randint(0, 9)},
                               **({"metadata": {"labels": {"a": "b"}, "annotations": {"note": rng.choice(UNI)}}} if rng.random() < 0.5 else {})})
+    r = rng.random()
+    if r < (1.0 if big else 0.04):
+        # a last-handled state of a realistic worst case (a ConfigMap with a file in it, a long list)
+        if rng.random() < 0.7:
+            essence["spec"]["blob"] = big_text(rng, huge=big and rng.random() < 0.5)
+        else:
+            essence["spec"]["items"] = [{"name": "item-%d" % i, "value": i} for i in range(rng.choice([100, 1000, 4000]))]
+        essence = sort_keys_deep(essence)       # (the driver receives objects with sorted keys; json.dumps keeps the order)
+    if rng.random() < 0.5 and corrupt is None:
+        add_twins(rng, body, flags, k, desc, expected_dleaves(dspec))
     return {"storage": spec, "shape": shape, "id": k, "idshape": idshape, "band": band, "body": body, "flags": flags,
             "others": others, "other_kinds": other_kinds,
             "other_records": [gen_record(rng)[0] for _ in others],
@@ -928,7 +1081,15 @@ def run_scenario(sc: dict, out: Out, with_driver: bool = True) -> None:
     Body = bodies.Body
     ann_leaves = [l for l in leaves(S) if isinstance(l, progress.AnnotationsProgressStorage)]
     status_leaves = [l for l in leaves(S) if isinstance(l, progress.StatusProgressStorage)]
-    prefixes = [l.prefix for l in ann_leaves]
+    # what the operator asked for (constructor arguments, setters): the oracle judges against THAT, not against the attributes
+    # the storage object shows (a storage that silently lives elsewhere shares or loses records)
+    xdesc = expected_leaves(sc["storage"])
+    xann = [d for d in xdesc if d["t"] == "ann"]
+    xstatus = [XLeaf(tuple(d["field"]), tuple(d["touch_field"])) for d in xdesc if d["t"] == "status"]
+    if leanio.canon(desc) != leanio.canon(xdesc):
+        out.fail(f"the storage built from {sc['storage']!r} is configured as {desc!r}, not as {xdesc!r}",
+                 {"site": "constructor/setter", "shape": "storage configuration not honoured"})
+    prefixes = [d["prefix"] for d in xann]
     drs = bool(sc["flags"].get("drs"))
     mk = k + "-ofDRS" if drs else k
     tags = out.tags
@@ -944,6 +1105,7 @@ def run_scenario(sc: dict, out: Out, with_driver: bool = True) -> None:
     hashed = False
     twokeys = False
     for li, leaf in enumerate(ann_leaves):
+        xp = xann[li]["prefix"] if li < len(xann) else leaf.prefix
         keys = list(leaf.make_keys(k, body=Body(base)))
         own_names += keys
         # determinism: a fresh storage object, built from the same arguments, gives the same names
@@ -962,18 +1124,18 @@ def run_scenario(sc: dict, out: Out, with_driver: bool = True) -> None:
             out.fail("an object that is not a Deployment-owned ReplicaSet got marked names", {"site": "mark_key", "shape": "marked without reason"})
         for i, full in enumerate(keys):
             which = "v2" if i == 0 else "v1"
-            if not full.startswith(leaf.prefix + "/"):
-                out.fail(f"generated name {full!r} is not under the storage prefix {leaf.prefix!r}",
+            if not full.startswith(xp + "/"):
+                out.fail(f"generated name {full!r} is not under the storage prefix {xp!r}",
                          {"site": "make_keys", "shape": "name outside the own prefix"})
                 continue
             probs = name_problems(full)
             if probs:
                 out.fail(f"invalid Kubernetes annotation name {full!r} for id {k!r} ({which}; {','.join(probs)})",
-                         classify_name(full, leaf.prefix, mk, which, probs))
+                         classify_name(full, xp, mk, which, probs))
             tags["invalid"] = tags.get("invalid", 0) + (1 if probs else 0)
         if len(keys) > 1:
             twokeys = True
-        part0 = keys[0][len(leaf.prefix) + 1:]
+        part0 = keys[0][len(xp) + 1:]
         if part0 != mk.translate(SAFE_TABLE):
             tags["reformed"] = True
         if len(mk) > 63 or len(keys) > 1 or part0 != mk.translate(SAFE_TABLE):
@@ -1010,7 +1172,12 @@ def run_scenario(sc: dict, out: Out, with_driver: bool = True) -> None:
     recorded = [o for o, h in zip(others, has_rec) if h]
     D = build_dstorage(sc["dstorage"])
     dann = [l for l in leaves(D) if isinstance(l, diffbase.AnnotationsDiffBaseStorage)]
-    lv = [(l.prefix, bool(l.v1)) for l in ann_leaves]
+    xddesc = expected_dleaves(sc["dstorage"])
+    xdann = [d for d in xddesc if d["t"] == "ann"]
+    if leanio.canon(ddescribe(D)) != leanio.canon(xddesc):
+        out.fail(f"the diff-base storage built from {sc['dstorage']!r} is configured as {ddescribe(D)!r}, not as {xddesc!r}",
+                 {"site": "constructor/setter", "shape": "storage configuration not honoured"})
+    lv = [(d["prefix"], d["v1"]) for d in xann]
 
     def marked(x: str) -> str:
         return x + "-ofDRS" if drs else x
@@ -1018,9 +1185,9 @@ def run_scenario(sc: dict, out: Out, with_driver: bool = True) -> None:
     # names the storages use themselves, as (prefix, id-as-the-storage-forms-it)
     def known_prefix(px: str) -> bool:      # detected as Kopf's own without a marker (kopf ef55390)
         return px == "kopf.zalando.org" or px.endswith(".kopf.zalando.org")
-    reserved_ids = [(l.prefix, "kopf-managed") for l in ann_leaves if not known_prefix(l.prefix)]
-    reserved_ids += [(l.prefix, marked(l.touch_key)) for l in ann_leaves]
-    reserved_ids += [(l.prefix, marked(l.key)) for l in dann]
+    reserved_ids = [(d["prefix"], "kopf-managed") for d in xann if not known_prefix(d["prefix"])]
+    reserved_ids += [(d["prefix"], marked(d["touch_key"])) for d in xann]
+    reserved_ids += [(d["prefix"], marked(d["key"])) for d in xdann]
 
     def reserved(mid: str) -> bool:
         """the id is (or, both taken verbatim, has the safe form of) a name the storages use themselves"""
@@ -1107,29 +1274,31 @@ def run_scenario(sc: dict, out: Out, with_driver: bool = True) -> None:
     p1 = jsonable(dict(p)) if r[0] == "ok" else None
     if with_driver:
         out.ask("store", ["C16.store", tdesc, sfx_table([k]), body0, patch0, k, sc["record"]], ["ok", p1] if r[0] == "ok" else r)
-    writes = any(d["t"] == "ann" or not d["nowrite"] for d in desc)
+    writes = any(d["t"] == "ann" or not d["nowrite"] for d in xdesc)
     # (a patch corrupted by the scenario is not applied: it would corrupt metadata itself)
     body1 = merge_patch(body0, p1) if (p1 is not None and not (corrupt or "").startswith("patch-")) else body0
     f1 = call(S.fetch, key=k, body=Body(body1))
     if with_driver:
         out.ask("fetch", ["C16.fetch", tdesc, sfx_table([k]), body1, k], jsonable(f1))
         out.ask("fetch-before", ["C16.fetch", tdesc, sfx_table([k]), body0, k], jsonable(call(S.fetch, key=k, body=Body(body0))))
+    if judge and r[0] != "ok":
+        out.fail(f"store of a record for {k!r} raises {r[1]} on a well-formed object",
+                 classify_one(mk, "store", "operation raises on a well-formed object"))
     if judge and r[0] == "ok" and writes:
         want = drop_nulls(rec)
         got = f1[1] if f1[0] == "ok" else f1
-        first = next(iter(leaves(S)), None)
-        if isinstance(first, progress.AnnotationsProgressStorage) and first.verbose and f1[0] == "ok" and got is not None \
-                and jsonable(got) != jsonable(rec):
+        if xdesc and xdesc[0]["t"] == "ann" and xdesc[0]["verbose"] and f1[0] == "ok" and got is not None \
+                and differs(jsonable(got), jsonable(rec)):
             out.fail(f"verbose storage does not read the record back identically (nulls included): stored {rec!r}, fetched {got!r}",
                      {"site": "store/fetch", "shape": "round-trip mismatch (verbose)"})
         collided = [o for o in others if set(own_names) & set(n for l in ann_leaves for n in l.make_keys(o, body=Body(base)))]
-        if f1[0] != "ok" or got is None or drop_nulls(jsonable(got)) != jsonable(want):
+        if f1[0] != "ok" or got is None or differs(drop_nulls(jsonable(got)), jsonable(want)):
             sig = {"site": "store/fetch", "shape": "round-trip mismatch"}
             # a record of a colliding other id read through a name this id does not write can only
             # come from known sharing classes
             out.fail(f"stored record is not read back: stored {want!r}, fetched {got!r}", sig)
         tags["roundtrip"] = True
-        check_isolation(out, sc, S, "store", k, mk, others, drs, before0, body1, before_others, own_names, prefixes, status_leaves, desc, Body, classify_pair)
+        check_isolation(out, sc, S, "store", k, mk, others, drs, before0, body1, before_others, own_names, prefixes, xstatus, desc, Body, classify_pair)
         if collided:
             tags["collided"] = True
     # ---- C. purge ---------------------------------------------------------------------------------
@@ -1149,6 +1318,9 @@ def run_scenario(sc: dict, out: Out, with_driver: bool = True) -> None:
     if with_driver:
         out.ask("purge-same-patch", ["C16.purge", tdesc, sfx_table([k]), body0, p1 if p1 is not None else patch0, k],
                 ["ok", p3] if r3[0] == "ok" else r3)
+    if judge and r2[0] != "ok":
+        out.fail(f"purge of the record of {k!r} raises {r2[1]} on a well-formed object",
+                 classify_one(mk, "purge", "operation raises on a well-formed object"))
     if judge and r2[0] == "ok":
         if f2 != ["ok", None]:
             out.fail(f"after purge the record of {k!r} is still fetched: {f2!r}", {"site": "purge", "shape": "record still readable after purge"})
@@ -1157,7 +1329,7 @@ def run_scenario(sc: dict, out: Out, with_driver: bool = True) -> None:
         for name in own_names:
             if name in anns2:
                 out.fail(f"after purge the annotation {name!r} of {k!r} is still on the object", {"site": "purge", "shape": "own annotation left after purge"})
-        for leaf in status_leaves:
+        for leaf in xstatus:
             cont = resolve(body2, leaf.field)
             if isinstance(cont, dict) and k in cont:
                 out.fail(f"after purge the status record of {k!r} is still on the object", {"site": "purge", "shape": "own status record left after purge"})
@@ -1171,7 +1343,7 @@ def run_scenario(sc: dict, out: Out, with_driver: bool = True) -> None:
             return prune(b)
         left = minus_own(body2)
         want_left = minus_own(merge_patch(body_wo_k, patch0))
-        if left != want_left and not colliding:
+        if differs(left, want_left) and not colliding:
             out.fail("purge leaves something of the handler's record behind (or removes something else): "
                      f"{diff_keys(want_left, left)}", {"site": "purge", "shape": "object differs from the one before the record was stored"})
         if r3[0] == "ok":
@@ -1179,7 +1351,7 @@ def run_scenario(sc: dict, out: Out, with_driver: bool = True) -> None:
             f3 = call(S.fetch, key=k, body=Body(body3))
             if f3 != ["ok", None]:
                 out.fail(f"store then purge in one patch still yields a record: {f3!r}", {"site": "purge", "shape": "record survives purge in the same patch"})
-        check_isolation(out, sc, S, "purge", k, mk, others, drs, body1, body2, fetch_all(body1), own_names, prefixes, status_leaves, desc, Body, classify_pair)
+        check_isolation(out, sc, S, "purge", k, mk, others, drs, body1, body2, fetch_all(body1), own_names, prefixes, xstatus, desc, Body, classify_pair)
     # ---- D. touch ---------------------------------------------------------------------------------
     tv = sc.get("touch")
     p = new_patch(patch0 if corrupt else None)
@@ -1188,9 +1360,11 @@ def run_scenario(sc: dict, out: Out, with_driver: bool = True) -> None:
     tkeys = [l.touch_key for l in ann_leaves]
     if with_driver:
         out.ask("touch", ["C16.touch", tdesc, sfx_table(tkeys), body1, patch0 if corrupt else {}, tv], ["ok", p4] if r4[0] == "ok" else r4)
+    if judge and r4[0] != "ok":
+        out.fail(f"touch({tv!r}) raises {r4[1]} on a well-formed object", {"site": "touch", "shape": "operation raises on a well-formed object"})
     if judge and r4[0] == "ok":
         body4 = merge_patch(body1, p4)
-        check_foreign(out, "touch", body1, body4, prefixes, status_leaves, touch=True)
+        check_foreign(out, "touch", body1, body4, prefixes, xstatus, touch=True)
         # a second touch with the same value on the touched object has nothing to change
         p = new_patch()
         call(S.touch, body=Body(body4), patch=p, value=tv)
@@ -1200,7 +1374,7 @@ def run_scenario(sc: dict, out: Out, with_driver: bool = True) -> None:
         # a touch changes no handler's record
         for o in [k] + others:
             b4, a4 = call(S.fetch, key=o, body=Body(body1)), call(S.fetch, key=o, body=Body(body4))
-            if jsonable(b4) != jsonable(a4):
+            if differs(jsonable(b4), jsonable(a4)):
                 out.fail(f"touch({tv!r}) changes what handler {o!r} reads: {b4!r} → {a4!r}",
                          classify_one(marked(o), "touch", "touch changes a handler's record"))
         for leaf in ann_leaves:
@@ -1215,6 +1389,8 @@ def run_scenario(sc: dict, out: Out, with_driver: bool = True) -> None:
     r5 = call(S.clear, essence=essence_in)
     if with_driver:
         out.ask("clear", ["C16.clear", tdesc, body1], jsonable(r5))
+    if judge and r5[0] != "ok":
+        out.fail(f"clear() raises {r5[1]} on a well-formed object", {"site": "clear", "shape": "operation raises on a well-formed object"})
     if judge and r5[0] == "ok":
         cleared = r5[1]
         if essence_in != snapshot:
@@ -1226,11 +1402,11 @@ def run_scenario(sc: dict, out: Out, with_driver: bool = True) -> None:
         for name, val in ((snapshot.get("metadata") or {}).get("annotations") or {}).items():
             if not any(name.startswith(px + "/") for px in prefixes) and anns.get(name, None) != val:
                 out.fail(f"clear() drops or changes the foreign annotation {name!r}", {"site": "clear", "shape": "foreign annotation changed"})
-        for leaf in status_leaves:
+        for leaf in xstatus:
             if resolve(cleared, leaf.field) is not MISSING:
                 out.fail(f"clear() keeps the storage's own status field {'.'.join(leaf.field)}", {"site": "clear", "shape": "own field kept"})
-        own_fields = [list(l.field) for l in status_leaves] + [list(l.touch_field) for l in status_leaves]
-        for leaf in status_leaves:
+        own_fields = [list(l.field) for l in xstatus] + [list(l.touch_field) for l in xstatus]
+        for leaf in xstatus:
             if resolve(cleared, leaf.touch_field) is not MISSING:
                 out.fail(f"clear() keeps the storage's own touch field {'.'.join(leaf.touch_field)}", {"site": "clear", "shape": "own field kept"})
         if without_own(cleared, prefixes, own_fields) != without_own(snapshot, prefixes, own_fields):
@@ -1244,8 +1420,13 @@ def run_scenario(sc: dict, out: Out, with_driver: bool = True) -> None:
     if judge:
         # a progress store / purge does not change the last-handled state
         d0, d1, d2 = (call(D.fetch, body=Body(b)) for b in (before0, body1, body2))
+        if d0 != ["ok", None]:
+            # no last-handled state was ever stored on this object (whatever somebody else's objects and operators left on it)
+            out.fail(f"a last-handled state {d0!r} is read from an object on which none was stored (records on it: {holders!r})",
+                     next((c for c in (vs_reserved(h) for h in holders) if c),
+                          {"site": "diffbase.fetch", "shape": "a last-handled state is read although none was stored", "class": "unknown"}))
         for opname, da, db in (("store", d0, d1), ("purge", d1, d2)):
-            if jsonable(da) != jsonable(db):
+            if differs(jsonable(da), jsonable(db)):
                 out.fail(f"{opname} of the record of {k!r} changes the last-handled state: {da!r} → {db!r}",
                          classify_one(mk, opname, "progress record changes the last-handled state"))
     p = new_patch(p1 if (p1 is not None and not corrupt) else None)
@@ -1254,6 +1435,9 @@ def run_scenario(sc: dict, out: Out, with_driver: bool = True) -> None:
     p6 = jsonable(dict(p)) if r6[0] == "ok" else None
     if with_driver:
         out.ask("dstore", ["C16.dstore", ddesc, sfx_table(dkeys), body0, pin, essence], ["ok", p6] if r6[0] == "ok" else r6)
+    if judge and r6[0] != "ok":
+        out.fail(f"storing the last-handled state raises {r6[1]} on a well-formed object",
+                 {"site": "diffbase store/fetch", "shape": "operation raises on a well-formed object"})
     if p6 is not None:
         body6 = merge_patch(body0, p6)
         f6 = call(D.fetch, body=Body(body6))
@@ -1261,7 +1445,7 @@ def run_scenario(sc: dict, out: Out, with_driver: bool = True) -> None:
             out.ask("dfetch", ["C16.dfetch", ddesc, sfx_table(dkeys), body6], jsonable(f6))
             out.ask("dfetch-before", ["C16.dfetch", ddesc, sfx_table(dkeys), body0], jsonable(call(D.fetch, body=Body(body0))))
         if judge:
-            if f6 != ["ok", essence]:
+            if differs(jsonable(f6), ["ok", essence]):
                 out.fail(f"last-handled state is not read back: stored {essence!r}, fetched {f6!r}", {"site": "diffbase store/fetch", "shape": "round-trip mismatch"})
             for leaf in dann:
                 for i, full in enumerate(leaf.make_keys(leaf.key, body=Body(body0))):
@@ -1269,14 +1453,14 @@ def run_scenario(sc: dict, out: Out, with_driver: bool = True) -> None:
                     if probs:
                         out.fail(f"invalid diff-base annotation name {full!r}",
                                  classify_name(full, leaf.prefix, leaf.key + ("-ofDRS" if drs else ""), "v2" if i == 0 else "v1", probs))
-            dprefixes = [l.prefix for l in dann]
-            dstatus = [l for l in leaves(D) if isinstance(l, diffbase.StatusDiffBaseStorage)]
+            dprefixes = [d["prefix"] for d in xdann]
+            dstatus = [XLeaf(tuple(d["field"])) for d in xddesc if d["t"] == "status"]
             check_foreign(out, "diffbase-store", merge_patch(body0, pin), body6, dprefixes, dstatus, touch=False)
             # storing the last-handled state changes no handler's record
             bpin = merge_patch(body0, pin)
             for o in [k] + others:
                 b6, a6 = call(S.fetch, key=o, body=Body(bpin)), call(S.fetch, key=o, body=Body(body6))
-                if jsonable(b6) != jsonable(a6):
+                if differs(jsonable(b6), jsonable(a6)):
                     out.fail(f"storing the last-handled state changes what handler {o!r} reads: {b6!r} → {a6!r}",
                              classify_one(marked(o), "diffbase-store", "last-handled state changes a handler's record"))
             # the essence built from the patched object does not contain the storage's own annotations
@@ -1290,6 +1474,12 @@ def run_scenario(sc: dict, out: Out, with_driver: bool = True) -> None:
 
 
 MISSING = object()
+
+
+class XLeaf:
+    """a status leaf as the configuration asks for it"""
+    def __init__(self, field: tuple, touch_field: tuple = ()) -> None:
+        self.field, self.touch_field = field, touch_field
 
 
 def resolve(d: Any, path: Iterable[str]) -> Any:
@@ -1336,7 +1526,7 @@ def diff_keys(a: Any, b: Any, path: str = "") -> list[str]:
             else:
                 out += diff_keys(a[k], b[k], f"{path}/{k}")
         return out[:8]
-    return [] if a == b else [f"~{path}"]
+    return [] if not differs(a, b) else [f"~{path}"]
 
 
 def apply_corruption(kind: str, body: dict, own_names: list[str], status_leaves: list, k: str) -> tuple[dict, dict]:
@@ -1397,9 +1587,9 @@ def without_own(body: dict, prefixes: list[str], own_fields: list[list[str]]) ->
 def check_foreign(out: Out, op: str, before: dict, after: dict, prefixes: list[str], status_leaves: list, touch: bool) -> None:
     """Everything that is not the storage's own (its prefix, its status fields) is identical."""
     own_fields = [list(l.field) for l in status_leaves]
-    own_fields += [list(l.touch_field) for l in status_leaves if hasattr(l, "touch_field")]
+    own_fields += [list(l.touch_field) for l in status_leaves if getattr(l, "touch_field", None)]
     b, a = without_own(before, prefixes, own_fields), without_own(after, prefixes, own_fields)
-    if b != a:
+    if differs(b, a):
         d = diff_keys(b, a)
         shape = "annotation outside the own prefix changed" if any("/metadata/annotations" in x for x in d) else "foreign stanza changed"
         out.fail(f"{op} changes data that is not the storage's own: {d}", {"site": op, "shape": shape})
@@ -1412,7 +1602,7 @@ def check_isolation(out: Out, sc: dict, S: Any, op: str, k: str, mk: str, others
     # other handlers read what they read before
     for o in others:
         now = call(S.fetch, key=o, body=Body(after))
-        if jsonable(now) != jsonable(before_others.get(o)):
+        if differs(jsonable(now), jsonable(before_others.get(o))):
             mo = o + "-ofDRS" if drs else o
             out.fail(f"{op} of {k!r} changes what handler {o!r} reads: {before_others.get(o)!r} → {now!r}",
                      classify_pair(mk, mo) if classify_pair else classify_sharing(mk, mo, [(d["prefix"], d["v1"]) for d in desc if d["t"] == "ann"]))
@@ -1433,11 +1623,228 @@ def check_isolation(out: Out, sc: dict, S: Any, op: str, k: str, mk: str, others
                 out.fail(f"{op} of {k!r} changes the status record of {name!r}", {"site": op, "shape": "status record of another key changed"})
 
 
+
+# =============================================================================================
+# sequences: several handlers' stores and purges, touches and diff-base stores accumulated in ONE patch over a body
+# that stays as it is until the patch is applied — the way a handling cycle uses the storages.  The oracle is a
+# dictionary: after every applied patch each id reads the last record stored for it (nothing if purged or never stored),
+# the last-handled state reads as the last one stored, and everything that is not the storages' own is as it was.
+# =============================================================================================
+def gen_full_record(rng) -> list[list[Any]]:
+    """all nine ProgressRecord keys (as kopf writes them), some of them None"""
+    while True:
+        rec, kind = gen_record(rng)
+        if kind == "full":
+            return rec
+
+
+def gen_sequence(rng) -> dict:
+    while True:
+        spec, shape = gen_storage_spec(rng)
+        xdesc = expected_leaves(spec)
+        if not any(d["t"] == "ann" or not d["nowrite"] for d in xdesc):
+            continue
+        if xdesc[0]["t"] == "ann" and rng.random() < 0.4:
+            continue          # more sequences over storages that read the status stanza first (the annotations are the usual head)
+        break
+    prefixes = [d["prefix"] for d in xdesc if d["t"] == "ann"]
+    plen = len(prefixes[0]) if prefixes else 16
+    ids: list[str] = []
+    for _ in range(rng.randint(2, 5)):
+        r = rng.random()
+        if ids and r < 0.15:
+            k = (ids[0] + "/" + ident(rng))[:300]                       # a sub-handler of the first one
+        elif ids and r < 0.30:
+            base = ids[0] if len(ids[0]) >= 64 else (ids[0] + "/" + "x".join(ident(rng, 8, 12) for _ in range(8)))[:rng.randint(64, 120)]
+            k = (base[:rng.randint(58, max(58, len(base) - 1))] + ident(rng, 1, 8) + rng.choice(ALNUM))[:300]   # shares a long prefix
+        else:
+            k = gen_id(rng, plen)[0]
+        if k not in ids:
+            ids.append(k)
+    body, flags = gen_body(rng, prefixes)
+    dspec = gen_dstorage_spec(rng, prefixes[0] if prefixes else "kopf.zalando.org")
+
+    def one_op() -> list:
+        r = rng.random()
+        i = rng.randrange(len(ids))
+        if r < 0.40:
+            return ["store", i, gen_full_record(rng)]
+        if r < 0.65:
+            return ["purge", i]
+        if r < 0.72:
+            return ["touch", rng.choice([None, "2020-12-31T23:59:59.000001", "значение", ""])]
+        if r < 0.82:
+            return ["dstore", sort_keys_deep({"spec": {"field": gen_value(rng), "n": rng.randint(0, 9)}})]
+        return ["commit"]
+    ops = [one_op() for _ in range(rng.randint(4, 16))]
+    if rng.random() < 0.6 and len(ids) >= 2:
+        # what every cycle does: records of several handlers pending in the patch, one of them finished and purged at once
+        a, b = rng.sample(range(len(ids)), 2)
+        at = rng.randint(0, len(ops))
+        mid = [["store", a, gen_full_record(rng)], ["store", b, gen_full_record(rng)]]
+        if rng.random() < 0.5:
+            mid.insert(rng.randint(0, 2), ["dstore", sort_keys_deep({"spec": {"n": rng.randint(0, 9)}})])
+        if rng.random() < 0.4:
+            mid = [["store", a, gen_full_record(rng)], ["commit"], ["purge", a], ["store", b, gen_full_record(rng)]]
+        ops[at:at] = mid + [["purge", b]]
+    if rng.random() < 0.5:
+        add_twins(rng, body, flags, ids[0], xdesc, expected_dleaves(dspec))
+    return {"kind": "sequence", "storage": spec, "shape": shape, "dstorage": dspec, "ids": ids, "body": body, "flags": flags, "ops": ops}
+
+
+def run_sequence(sc: dict, out: Out, with_driver: bool = True) -> None:
+    conventions, progress, diffbase, bodies, patches = _kopf()
+    S, D = build_storage(sc["storage"]), build_dstorage(sc["dstorage"])
+    Body = bodies.Body
+    tdesc, ddesc = describe_tree(S), ddescribe_tree(D)
+    xdesc, xddesc = expected_leaves(sc["storage"]), expected_dleaves(sc["dstorage"])
+    xann = [d for d in xdesc if d["t"] == "ann"]
+    xdann = [d for d in xddesc if d["t"] == "ann"]
+    prefixes = [d["prefix"] for d in xann]
+    dprefixes = [d["prefix"] for d in xdann]
+    own_fields = [d["field"] for d in xdesc + xddesc if d["t"] == "status"] + [d["touch_field"] for d in xdesc if d["t"] == "status"]
+    ids: list[str] = sc["ids"]
+    drs = bool(sc["flags"].get("drs"))
+    tags = out.tags
+    tags.update({"shape": sc.get("shape"), "drs": drs, "seq_ids": len(ids), "seq_ops": len(sc["ops"])})
+
+    def marked(x: str) -> str:
+        return x + "-ofDRS" if drs else x
+    lv = [(d["prefix"], d["v1"]) for d in xann]
+    # names the storages use themselves; ids that share a name with one another or with those are known input classes
+    # (F6b/d/e/g, judged by the single-id scenarios): such a sequence is compared with the model, not judged
+    own_ids = [(d["prefix"], marked(d["touch_key"])) for d in xann] + [(d["prefix"], marked(d["key"])) for d in xdann] \
+        + [(d["prefix"], "kopf-managed") for d in xann + xdann]
+    all_lv = lv + [(d["prefix"], d["v1"]) for d in xdann]
+
+    def names_of(mid: str) -> set[str]:
+        return {px + "/" + part for px, v1 in all_lv for part in pinned_parts(mid, px, v1)}
+    own_names_of = {px + "/" + part for px, res in own_ids for _, v1 in [(px, True)] for part in pinned_parts(res, px, True)}
+    conflict = False
+    for i, a in enumerate(ids):
+        na = names_of(marked(a))
+        if na & own_names_of:
+            conflict = True
+        for b in ids[i + 1:]:
+            if na & names_of(marked(b)):
+                conflict = True
+    status_paths = [list(f) for f in own_fields]
+    if any(i != j and is_prefix_path(a, b) for i, a in enumerate(status_paths) for j, b in enumerate(status_paths)):
+        conflict = True       # one storage configured inside another one's field (e.g. the same field twice)
+    tags["seq_conflict"] = conflict
+    judge = not conflict
+    base = copy.deepcopy(sc["body"])
+    body = copy.deepcopy(base)
+    patch = patches.Patch()
+    ref: dict[int, Any] = {}
+    ref_essence: Any = None
+    replay_note = {"site": "sequence"}
+    dkeys = [d["key"] for d in xdann]
+    tkeys = [d["touch_key"] for d in xann]
+    commits = [0]
+
+    def verify(when: str) -> None:
+        for i, k in enumerate(ids):
+            got = call(S.fetch, key=k, body=Body(body))
+            if with_driver:
+                out.ask("seq-fetch", ["C16.fetch", tdesc, sfx_table([k]), body, k], jsonable(got))
+            want = ref.get(i)
+            if judge:
+                g = drop_nulls(jsonable(got[1])) if (got[0] == "ok" and got[1] is not None) else (None if got[0] == "ok" else got)
+                if differs(g, want):
+                    out.fail(f"{when}: handler {k!r} reads {got!r}; the last operation on it left {want!r} "
+                             f"(ids {ids!r}, ops {[o[:2] for o in sc['ops']]!r})",
+                             {**replay_note, "shape": "a handler's record is not the one last stored / is there after its purge"})
+        dgot = call(D.fetch, body=Body(body))
+        if with_driver:
+            out.ask("seq-dfetch", ["C16.dfetch", ddesc, sfx_table(dkeys), body], jsonable(dgot))
+        if judge and differs(jsonable(dgot), ["ok", ref_essence]):
+            out.fail(f"{when}: the last-handled state reads {dgot!r}; the last one stored is {ref_essence!r} (ops {[o[:2] for o in sc['ops']]!r})",
+                     {**replay_note, "shape": "the last-handled state is not the one last stored"})
+        if judge:
+            b, a = without_own(base, prefixes + dprefixes, own_fields), without_own(body, prefixes + dprefixes, own_fields)
+            if differs(b, a):
+                out.fail(f"{when}: data that is not the storages' own changed: {diff_keys(b, a)}", {**replay_note, "shape": "foreign data changed"})
+
+    def commit(when: str) -> None:
+        nonlocal body, patch
+        body = merge_patch(body, jsonable(dict(patch)))
+        patch = patches.Patch()
+        commits[0] += 1
+        verify(when)
+
+    def apply(n: int, op: list) -> bool:
+        nonlocal ref_essence
+        before = jsonable(dict(patch))
+        if op[0] == "store":
+            k = ids[op[1]]
+            r = call(S.store, key=k, record=rec_dict(op[2]), body=Body(body), patch=patch)
+            rq = ["C16.store", tdesc, sfx_table([k]), body, before, k, op[2]]
+            ref[op[1]] = drop_nulls(jsonable(rec_dict(op[2])))
+        elif op[0] == "purge":
+            k = ids[op[1]]
+            r = call(S.purge, key=k, body=Body(body), patch=patch)
+            rq = ["C16.purge", tdesc, sfx_table([k]), body, before, k]
+            ref[op[1]] = None
+        elif op[0] == "touch":
+            r = call(S.touch, body=Body(body), patch=patch, value=op[1])
+            rq = ["C16.touch", tdesc, sfx_table(tkeys), body, before, op[1]]
+        elif op[0] == "dstore":
+            r = call(D.store, body=Body(body), patch=patch, essence=copy.deepcopy(op[1]))
+            rq = ["C16.dstore", ddesc, sfx_table(dkeys), body, before, op[1]]
+            ref_essence = op[1]
+        else:
+            raise ValueError(op)
+        if with_driver:
+            out.ask("seq-" + op[0], rq, ["ok", jsonable(dict(patch))] if r[0] == "ok" else r)
+        if r[0] != "ok":
+            if judge:
+                out.fail(f"op {n} {op[:2]!r} raises {r[1]} on a well-formed object and patch", {**replay_note, "shape": "operation raises on a well-formed object"})
+            return False
+        return True
+
+    alive = True
+    for n, op in enumerate(sc["ops"]):
+        if op[0] == "commit":
+            commit(f"after the patch of ops ..{n}")
+        elif not apply(n, op):
+            alive = False
+            break
+    if alive:
+        commit("after the last patch")
+        # the end of every cycle: all handlers purged in one patch; nothing of them stays
+        for i in range(len(ids)):
+            if not apply(len(sc["ops"]) + i, ["purge", i]):
+                alive = False
+                break
+    if alive:
+        commit("after purging every handler in one patch")
+        if judge:
+            allowed = set((base.get("metadata") or {}).get("annotations") or {}) | own_names_of
+            left = [n for n in ((body.get("metadata") or {}).get("annotations") or {})
+                    if any(n.startswith(px + "/") for px in prefixes) and n not in allowed]
+            if left:
+                out.fail(f"after purging every handler, annotations {left!r} under the own prefix are still on the object",
+                         {**replay_note, "shape": "own annotation left after purge"})
+            for d in xdesc:
+                if d["t"] == "status":
+                    cont = resolve(body, d["field"])
+                    stay = [k for k in ids if isinstance(cont, dict) and k in cont]
+                    if stay:
+                        out.fail(f"after purging every handler, status records of {stay!r} are still on the object",
+                                 {**replay_note, "shape": "own status record left after purge"})
+    tags["seq_commits"] = commits[0]
+
+
 # =============================================================================================
 # run
 # =============================================================================================
 def abstraction(sc: dict, tags: dict) -> tuple[str, bool]:
     spec = sc["storage"]
+    if sc.get("kind") == "sequence":
+        opsig = [o[0][0] + (str(o[1]) if o[0] in ("store", "purge") else "") for o in sc["ops"]]
+        return leanio.canon(["seq", sc.get("shape"), tags.get("drs"), len(sc["ids"]), "".join(opsig), tags.get("seq_conflict"),
+                             sc["flags"].get("kind"), sc["flags"].get("twins", 0) > 0]), True
     first_prefix = None
     for d in describe(build_storage(spec)):
         if d["t"] == "ann":
@@ -1469,11 +1876,34 @@ def process(scs: list[dict], with_driver: bool) -> dict:
     metas: list[tuple[int, str, Any]] = []
     for i, sc in enumerate(scs):
         out = Out()
+        if sc.get("kind") == "sequence":
+            run_sequence(sc, out, with_driver)
+            key, nontrivial = abstraction(sc, out.tags)
+            res["evaluations"] += 1
+            res["keys"].append(key)
+            for g in ("seq_ids", "seq_commits", "seq_conflict"):
+                count(g, out.tags.get(g))
+            count("seq_ops", "%02d-%02d" % (len(sc["ops"]) // 5 * 5, len(sc["ops"]) // 5 * 5 + 4))
+            count("seq_shape", out.tags.get("shape"))
+            count("seq_twins", sc["flags"].get("twins", 0) > 0)
+            for w in out.what:
+                count("ops", w)
+            for what, sig in out.fails:
+                res["oracle"].append({"what": what, "signature": sig, "replay": {"kind": "scenario", "scenario": sc}})
+                count("oracle_failures", sig.get("shape"))
+            for what, rq, im in zip(out.what, out.reqs, out.impl):
+                reqs.append(rq)
+                metas.append((i, what, im))
+            continue
         run_scenario(sc, out, with_driver)
         key, nontrivial = abstraction(sc, out.tags)
         res["evaluations"] += 1
         if nontrivial:
             res["keys"].append(key)
+        count("twins", sc["flags"].get("twins", 0) > 0)
+        count("record_size", "big" if any(isinstance(v, str) and len(v) > 1000 or isinstance(v, list) and len(v) > 50 for _, v in sc["record"]) else "small")
+        count("essence_size", "big" if len(json.dumps(sc["essence"])) > 1000 else "small")
+        count("configured_by", "setter" if '"set"' in json.dumps(sc["storage"]) else "constructor")
         for g in ("shape", "band", "idshape", "rkind", "drs", "corrupt", "hashed", "reformed", "twokeys", "others", "legacy", "blank_ids"):
             count(g, out.tags.get(g))
         count("id_length", "%03d-%03d" % (len(sc["id"]) // 20 * 20, len(sc["id"]) // 20 * 20 + 19))
@@ -1525,7 +1955,10 @@ def _worker(args: tuple[str, int, bool]) -> dict:
     import random
     tag, n, with_driver = args
     rng = random.Random(tag)
-    scs = [gen_scenario(rng) for _ in range(n)]
+    if tag.startswith("seq"):
+        scs = [gen_sequence(rng) for _ in range(n)]
+    else:
+        scs = [gen_scenario(rng, big=tag.startswith("big")) for _ in range(n)]
     return process(scs, with_driver)
 
 
@@ -1563,12 +1996,12 @@ def fold(ctx: Ctx, res: dict) -> None:
 
 def run_pool(ctx: Ctx, total: int, with_driver: bool, tagbase: str) -> None:
     import multiprocessing as mp
-    if ctx.tier != "thorough" and total <= 3000:
+    if ctx.tier != "thorough" and total <= 300:
         shards = [(f"{tagbase}-{ctx.seed}-0", total, with_driver)]
         fold(ctx, _worker(shards[0]))
         return
     nproc = min(16, os.cpu_count() or 4)
-    per = 1500 if total > 20000 else max(200, total // nproc)
+    per = 1500 if total > 20000 else max(100, total // nproc)
     shards = [(f"{tagbase}-{ctx.seed}-{i}", min(per, total - i * per), with_driver) for i in range((total + per - 1) // per)]
     with mp.get_context("fork").Pool(nproc) as pool:
         for res in pool.imap_unordered(_worker, shards):
@@ -2020,6 +2453,8 @@ def run(ctx: Ctx) -> None:
     for _ in range(1 if ctx.tier == "quick" else 8):
         keys_tie(ctx, ctx.budget(2000, 5000))
     run_pool(ctx, ctx.budget(5000, 200000), True, "gen")
+    run_pool(ctx, ctx.budget(1200, 40000), True, "seq")
+    run_pool(ctx, ctx.budget(100, 3000), False, "big")      # records / essences of 1 KiB .. 128 KiB: oracle only
     report_sfx(ctx)
     ctx.extra.pop("_keys_round", None)
     ctx.extra["oracle_failures_by_signature"] = ctx.extra.pop("_per_signature", {})
@@ -2028,6 +2463,8 @@ def run(ctx: Ctx) -> None:
 def search(ctx: Ctx, broken: list) -> None:
     """A proof or the correspondence is broken and the oracle saw nothing: larger budget, oracle only."""
     run_pool(ctx, ctx.budget(5000, 200000) * (10 if ctx.tier == "quick" else 2), False, "search")
+    run_pool(ctx, ctx.budget(1200, 40000) * (10 if ctx.tier == "quick" else 2), False, "seqsearch")
+    run_pool(ctx, ctx.budget(100, 3000) * (5 if ctx.tier == "quick" else 2), False, "bigsearch")
     ctx.extra["oracle_failures_by_signature"] = ctx.extra.pop("_per_signature", {})
 
 
